@@ -13,7 +13,7 @@ import (
 func init() {
 	register(&Check{
 		ID: "C07", Level: "exploration", QuickSecs: 150, ThoroughSecs: 1500,
-		Rule:        "rule-reference graphs on 1..3 rules; each rule is [alt1 / alt2] with alt1 = prefix ref-item ['a'] where prefix ranges over {none,'a',\"\",'a'?,'a'*,'a'+,&'a',!'a',[],[^a],&{true},#{},x:\"\",(\"\"/'a'),('a'/\"\"),%{l}} and ref-item over {R,R?,R*,R+,&R,!R,x:R,(R 'a'),(R/'a'),R{act},('a'/R), %{l} //{l} R} for every target rule R (1 rule: complete product; 2 rules: complete sets for the first rule x reduced sets (thorough: complete) for the second; 3 rules: every 3-cycle and chord over 6 prefix kinds); each grammar is analysed by the real front-end + builder.PrepareGrammar (accepted / 'contains left recursion') and compared with (i) ground truth within bounds: the reference interpreter run on all inputs over {a,b} up to L=2 reports whether some rule is re-entered at an offset where it is already active, (ii) an independent static analysis (least-fixpoint nullability, first-call sets descending into & and !). accepted + dynamic witness = miss; rejected + no static cycle + no witness = false rejection. For every miss and a slice of the accepted grammars the real generated parser is run (must stay within the expression budget whenever the reference terminates). Non-trivial = grammars with at least one cycle in the static analysis or a nullable prefix before a reference.",
+		Rule:        "rule-reference graphs on 1..3 rules; each rule is [alt0 /] alt1 [/ alt2] with alt1 = prefix ref-item ['a'] where prefix ranges over {none,'a',\"\",'a'?,'a'*,'a'+,&'a',!'a',[],[^a],&{true},#{},x:\"\",(\"\"/'a'),('a'/\"\"),%{l},N,('a'?)+,N+} (N <- 'z'? a nullable rule), ref-item over {R,R?,R*,R+,&R,!R,x:R,(R 'a'),(R/'a'),R{act},('a'/R), %{l} //{l} R, (N R)?,(N R)*,(N R 'a')+,&(N R),!(N R),x:(N R),!'a' / N R 'a',&'a' / R 'a',&{} / R 'a', recovery into N R} and alt0 a nullable alternative that can fail (&!., !'a', !{}, &'a' \"\") for every target rule R (1 rule: complete product; 2 rules: complete sets for the first rule x reduced sets (thorough: complete) for the second; 3 rules: every 3-cycle and chord over 6 prefix kinds); each grammar is analysed by the real front-end + builder.PrepareGrammar (accepted / 'contains left recursion') and compared with (i) ground truth within bounds: the reference interpreter run on all inputs over {a,b} up to L=2 reports whether some rule is re-entered at an offset where it is already active, (ii) an independent static analysis (least-fixpoint nullability, first-call sets descending into & and !). accepted + dynamic witness = miss; rejected + no static cycle + no witness = false rejection. For every miss and a slice of the accepted grammars the real generated parser is run (must stay within the expression budget whenever the reference terminates). Non-trivial = grammars with at least one cycle in the static analysis or a nullable prefix before a reference.",
 		Assumptions: []string{"hook analyze mode = ParseReader + builder.PrepareGrammar of the working tree", "recovery operators are analysed conservatively by both sides; no false-rejection alarm is raised for grammars with throw/recover"},
 		Run:         runC07,
 	})
@@ -30,8 +30,12 @@ func runC07(c *ShardCtx) {
 		"labempty":         func() *peg.Expr { return peg.Label("x", peg.Lit("")) },
 		"choiceEmptyFirst": func() *peg.Expr { return peg.Choice(peg.Lit(""), a()) }, "choiceEmptyLast": func() *peg.Expr { return peg.Choice(a(), peg.Lit("")) },
 		"throw": func() *peg.Expr { return peg.Throw("l") },
+		// a nullable RULE (rule N <- 'z'? is added to the grammar) and a + over a nullable body
+		"nullrule":     func() *peg.Expr { return peg.Ref("N") },
+		"plusnullable": func() *peg.Expr { return peg.Plus(peg.Opt(a())) },
+		"plusnullrule": func() *peg.Expr { return peg.Plus(peg.Ref("N")) },
 	}
-	prefixOrder := []string{"none", "a", "empty", "opt", "star", "plus", "and", "not", "emptyclass", "notclass", "andcode", "state", "labempty", "choiceEmptyFirst", "choiceEmptyLast", "throw"}
+	prefixOrder := []string{"none", "a", "empty", "opt", "star", "plus", "and", "not", "emptyclass", "notclass", "andcode", "state", "labempty", "choiceEmptyFirst", "choiceEmptyLast", "throw", "nullrule", "plusnullable", "plusnullrule"}
 	refItems := map[string]func(r string) *peg.Expr{
 		"R": func(r string) *peg.Expr { return peg.Ref(r) }, "R?": func(r string) *peg.Expr { return peg.Opt(peg.Ref(r)) },
 		"R*": func(r string) *peg.Expr { return peg.Star(peg.Ref(r)) }, "R+": func(r string) *peg.Expr { return peg.Plus(peg.Ref(r)) },
@@ -40,8 +44,22 @@ func runC07(c *ShardCtx) {
 		"(R/a)": func(r string) *peg.Expr { return peg.Choice(peg.Ref(r), a()) }, "R{}": func(r string) *peg.Expr { return peg.Action(0, peg.Ref(r)) },
 		"(a/R)":   func(r string) *peg.Expr { return peg.Choice(a(), peg.Ref(r)) },
 		"recover": func(r string) *peg.Expr { return peg.Recover(peg.Throw("l"), peg.Ref(r), "l") },
+		// the reference behind a nullable rule INSIDE an operator (the nullable flag of
+		// the inner rule reference has to be computed there too)
+		"(N R)?":   func(r string) *peg.Expr { return peg.Opt(peg.Seq(peg.Ref("N"), peg.Ref(r))) },
+		"(N R)*":   func(r string) *peg.Expr { return peg.Star(peg.Seq(peg.Ref("N"), peg.Ref(r))) },
+		"(N R a)+": func(r string) *peg.Expr { return peg.Plus(peg.Seq(peg.Ref("N"), peg.Ref(r), a())) },
+		"&(N R)":   func(r string) *peg.Expr { return peg.And(peg.Seq(peg.Ref("N"), peg.Ref(r))) },
+		"!(N R)":   func(r string) *peg.Expr { return peg.Not(peg.Seq(peg.Ref("N"), peg.Ref(r))) },
+		"x:(N R)":  func(r string) *peg.Expr { return peg.Label("y", peg.Seq(peg.Ref("N"), peg.Ref(r))) },
+		"!a/N R":   func(r string) *peg.Expr { return peg.Choice(peg.Not(a()), peg.Seq(peg.Ref("N"), peg.Ref(r), a())) },
+		"&a/R":     func(r string) *peg.Expr { return peg.Choice(peg.And(a()), peg.Seq(peg.Ref(r), a())) },
+		"&{}/R":    func(r string) *peg.Expr { return peg.Choice(peg.AndCode(0), peg.Seq(peg.Ref(r), a())) },
+		"recoverNR": func(r string) *peg.Expr {
+			return peg.Recover(peg.Seq(peg.Opt(a()), peg.Throw("l")), peg.Seq(peg.Ref("N"), peg.Ref(r)), "l")
+		},
 	}
-	refOrder := []string{"R", "R?", "R*", "R+", "&R", "!R", "x:R", "(R a)", "(R/a)", "R{}", "(a/R)", "recover"}
+	refOrder := []string{"R", "R?", "R*", "R+", "&R", "!R", "x:R", "(R a)", "(R/a)", "R{}", "(a/R)", "recover", "(N R)?", "(N R)*", "(N R a)+", "&(N R)", "!(N R)", "x:(N R)", "!a/N R", "&a/R", "&{}/R", "recoverNR"}
 	alt2s := []func() *peg.Expr{nil, a, func() *peg.Expr { return peg.Lit("") }}
 	mkRule := func(pre, ri, target string, tail bool, alt2 int) *peg.Expr {
 		var items []*peg.Expr
@@ -63,12 +81,23 @@ func runC07(c *ShardCtx) {
 		}
 		return e
 	}
-	inputs := peg.Inputs([]string{"a", "b"}, 2)
+	inputs := peg.Inputs([]string{"a", "b", "z"}, 2)
 	idx := 0
 	check := func(g *peg.Grammar) {
 		idx++
 		if !c.Mine(idx) {
 			return
+		}
+		usesN := false
+		for _, r := range g.Rules {
+			for _, x := range peg.RefsOf(r.Expr) {
+				if x == "N" {
+					usesN = true
+				}
+			}
+		}
+		if usesN && g.Rule("N") == nil {
+			g.Rules = append(g.Rules, &peg.Rule{Name: "N", Expr: peg.Opt(peg.Lit("z"))})
 		}
 		peg.Renumber(g, 1)
 		text := peg.Print(g, nil)
@@ -125,8 +154,9 @@ func runC07(c *ShardCtx) {
 				detail = fmt.Sprintf("; generated parser on %q: val=%s errs=%v diverged=%v", witnessIn, obs.Val, msgs(obs), obs.Diverged)
 			}
 			known := ""
-			if lookaheadOnly(g, an) {
-				known = "lr-through-lookahead"
+			if an.HasCycle() && !peg.AnalyzeChoiceBlind(g).HasCycle() {
+				// exactly the blind spot of finding D22
+				known = "choice-blind-nullable"
 			}
 			c.Report(Violation{Desc: "left recursion not detected: accepted without -support-left-recursion but rule re-entered at " + witness + detail, Grammar: text, Input: string(witnessIn), InputHex: hexOf(witnessIn)}, known)
 			return
@@ -163,6 +193,13 @@ func runC07(c *ShardCtx) {
 			for _, tail := range []bool{false, true} {
 				for alt2 := range alt2s {
 					check(&peg.Grammar{Rules: []*peg.Rule{{Name: "A", Expr: mkRule(pre, ri, "A", tail, alt2)}}})
+					// a first alternative that is nullable but can fail, the recursion in a later one
+					if alt2 == 1 && !tail {
+						for _, first := range []func() *peg.Expr{func() *peg.Expr { return peg.And(peg.Not(peg.Any())) }, func() *peg.Expr { return peg.Not(a()) }, func() *peg.Expr { return peg.NotCode(0) }, func() *peg.Expr { return peg.Seq(peg.And(a()), peg.Lit("")) }} {
+							e := peg.Choice(first(), mkRule(pre, ri, "A", false, 0), a())
+							check(&peg.Grammar{Rules: []*peg.Rule{{Name: "A", Expr: e}}})
+						}
+					}
 					// two prefixes
 					for _, pre2 := range reduced[1:] {
 						if f := prefixes[pre2]; f != nil && prefixes[pre] != nil {
@@ -228,21 +265,4 @@ func hasKind(o *rtapi.Obs, k string) bool {
 		}
 	}
 	return o.Panic == k
-}
-
-// lookaheadOnly: the grammar has a cycle in the first-call graph, and it
-// has none once references under & and ! are ignored (D5's shape).
-func lookaheadOnly(g *peg.Grammar, an *peg.Analysis) bool {
-	if !an.HasCycle() {
-		return false
-	}
-	h := g.Clone()
-	for _, r := range h.Rules {
-		r.Expr.Walk(func(e *peg.Expr) {
-			if e.K == peg.KAnd || e.K == peg.KNot {
-				e.Kids = []*peg.Expr{peg.Lit("")}
-			}
-		})
-	}
-	return !peg.Analyze(h).HasCycle()
 }
